@@ -49,6 +49,9 @@ def import_tally():
         return _tally
     if SRC not in sys.path:
         sys.path.insert(0, SRC)
+    os.environ["NO_COLOR"] = "1"          # colour codes are decided at import time from isatty()
+    os.environ.pop("FORCE_COLOR", None)
+    os.environ.pop("TALLY_CONFIG", None)
     for name in [m for m in sys.modules if m == "tally" or m.startswith("tally.")]:
         del sys.modules[name]
     import tally  # noqa
